@@ -575,7 +575,36 @@ func (c *Ctx) ruleTrim(rule string) {
 			}
 		}
 	}
-	c.R.Note("%s: %d digit-trimming call(s) examined", rule, n)
+	// a float rendered with the digits it takes and no more (strconv.FormatFloat with precision -1) has no trailing zeros
+	// to trim, and a whole count comes out without a fractional part
+	for _, fn := range c.unitFuncs() {
+		idx := 0
+		for _, b := range fn.Blocks {
+			for _, in := range b.Instrs {
+				call, ok := in.(*ssa.Call)
+				if !ok || core.StaticCalleeName(&call.Call) != "strconv.FormatFloat" || len(call.Call.Args) != 4 {
+					continue
+				}
+				idx++
+				n++
+				k := key(rule, c.M.Key(fn), sprintf("float rendering #%d needs no trimming or is trimmed", idx))
+				verb, okVerb := core.ConstInt(call.Call.Args[1])
+				prec, okPrec := core.ConstInt(call.Call.Args[2])
+				switch {
+				case okVerb && okPrec && verb == 'f' && prec == -1:
+					c.R.Ok(rule, k, c.M.InstrPos(call), "shortest rendering of an amount", "FormatFloat(x, 'f', -1, ..): no exponent, no trailing zeros, no fractional part for a whole count")
+				case okVerb && verb == 'f' && flowsToTrim(call, map[ssa.Value]bool{}):
+					c.R.Ok(rule, k, c.M.InstrPos(call), "fixed rendering of an amount", "its result is handed to strings.Trim*")
+				case okVerb && verb == 'f' && c.onlyReparsed(call):
+					c.R.Ok(rule, k, c.M.InstrPos(call), "trial rendering of an amount", "its result is only parsed back (strconv.ParseFloat), never printed")
+				default:
+					c.R.Bad(rule, k, c.M.InstrPos(call), "a float rendering of an amount that the parser may not read back",
+						"an exponent (verbs e, g) or the trailing zeros of a fixed precision (\"1.000000minute\") are not in the grammar of the counts: the formatter's own output is rejected by the parser")
+				}
+			}
+		}
+	}
+	c.R.Note("%s: %d digit-trimming / rendering call(s) examined", rule, n)
 	// every fixed-precision float rendering is trimmed: the grammar's count groups of the larger units accept digits
 	// only, so "1.000000minute" (an untrimmed %f of a whole count) cannot be parsed back
 	for _, fn := range c.unitFuncs() {
@@ -613,6 +642,24 @@ func mayBeFloatVerb(v ssa.Value, depth int) bool {
 		}
 	}
 	return false
+}
+
+// onlyReparsed: the text is used for nothing but strconv.ParseFloat.
+func (c *Ctx) onlyReparsed(call *ssa.Call) bool {
+	refs := call.Referrers()
+	if refs == nil || len(*refs) == 0 {
+		return false
+	}
+	for _, r := range *refs {
+		rc, ok := r.(*ssa.Call)
+		if !ok || core.StaticCalleeName(&rc.Call) != "strconv.ParseFloat" {
+			if _, isDebug := r.(*ssa.DebugRef); isDebug {
+				continue
+			}
+			return false
+		}
+	}
+	return true
 }
 
 func flowsToTrim(v ssa.Value, seen map[ssa.Value]bool) bool {
@@ -786,7 +833,10 @@ func derivesFrom(v ssa.Value, depth int) (floor bool, phi bool) {
 		}
 		return helperResult(x, 0, depth)
 	case *ssa.Phi:
-		if isLoopHeader(x.Block()) {
+		if isLoopHeader(x.Block()) && depth < 3 {
+			// the loop-carried value of the formatter's own loop over the multipliers: the running remainder. (Inside a
+			// helper - depth >= 3 - a loop-carried value is a merge like any other: the count that a helper steps down
+			// until it fits is still the quotient.)
 			return false, true
 		}
 		for _, e := range x.Edges {
